@@ -84,6 +84,15 @@ Proof.
     now apply read_psk_len in H.
 Qed.
 
+(* without any premise: a FakePreSharedKeyExtension with a binder of another size is refused by Read *)
+Lemma len_read_any e n b : ext_read e n = Ok b -> blen b = ext_len e.
+Proof.
+  intros H. destruct (state_ok e) eqn:Hs; [now apply (len_read e n b)|].
+  destruct e; cbn [state_ok] in Hs; try discriminate.
+  cbn [ext_read] in H. rewrite Hs in H. cbn [negb] in H.
+  destruct (negb omit && (psk_ext_len ids binders =? 0)); discriminate.
+Qed.
+
 (* ---- T2: any shorter buffer gives io.ErrShortBuffer (and no bytes) ---- *)
 Lemma read_short e n : state_ok e = true -> n < ext_len e -> ext_read e n = Err E_SHORT.
 Proof.
@@ -93,9 +102,6 @@ Proof.
     guard_tac; solve [reflexivity | lia].
   - (* UtlsPSK *) cbn [state_ok] in Hs. unfold utls_psk_len in *.
     destruct has_session; cbn [negb] in *; [|lia].
-    assert (Hl : psk_ext_len ids binders = match cached with Some c => c | None => psk_ext_len ids binders end)
-      by (destruct cached; lia).
-    rewrite <- Hl in *.
     destruct (psk_ext_len ids binders =? 0) eqn:E0; [lia|].
     now apply read_psk_short.
   - (* FakePSK *) cbn [state_ok] in Hs. rewrite Hs. cbn [negb].
